@@ -58,6 +58,34 @@ def put(n, target, mode, version='1.36'):
     return Req(name, fn, consumer=1, cgen=('g%d' % n, mode), kind='put')
 
 
+def put_empty(n, mode, version='1.36'):
+    """PUT with empty allocations: remove everything the consumer holds"""
+    def fn(ctx, w):
+        body = {'allocations': {}, 'project_id': 'proj', 'user_id': 'user',
+                'consumer_generation': cgen_of(ctx, 'g%d' % n, mode)}
+        return app.call('PUT', '/allocations/' + CONS(1), body,
+                        version=version)
+    return Req('put_empty%d' % n, fn, consumer=1, cgen=('g%d' % n, mode),
+               kind='put')
+
+
+def post_empty(n, mode, version='1.36'):
+    def fn(ctx, w):
+        body = {CONS(1): {'allocations': {}, 'project_id': 'proj',
+                          'user_id': 'user',
+                          'consumer_generation': cgen_of(ctx, 'g%d' % n,
+                                                         mode)}}
+        return app.call('POST', '/allocations', body, version=version)
+    return Req('post_empty%d' % n, fn, consumer=1, cgen=('g%d' % n, mode),
+               kind='post')
+
+
+def delete(n, version='1.36'):
+    def fn(ctx, w):
+        return app.call('DELETE', '/allocations/' + CONS(1), version=version)
+    return Req('delete%d' % n, fn, consumer=1, cgen=None, kind='delete')
+
+
 def post(n, target, mode, version='1.36'):
     def fn(ctx, w):
         body = {CONS(1): {'allocations': {U(target): {'resources': {
@@ -87,6 +115,8 @@ def reshape(n, mode, version='1.36'):
 
 def supplied(ctx, req):
     """(is_null, value) of the generation the request carried on this path"""
+    if req.cgen is None:
+        return None, None
     name, mode = req.cgen
     if mode == 'null':
         return True, None
@@ -117,7 +147,8 @@ def make_family(name, existing, reqs):
         # (a) among writes carrying the same generation at most one succeeds
         for a in ok:
             for b in ok:
-                if a < b:
+                if a < b and sup[a][0] is not None and \
+                        sup[b][0] is not None:
                     (na, va), (nb, vb) = sup[a], sup[b]
                     if na and nb:
                         same = True
@@ -140,6 +171,8 @@ def make_family(name, existing, reqs):
                 continue
             pres, gen = ws[-1]['cons']
             isnull, val = sup[i]
+            if isnull is None:
+                continue
             if isnull:
                 # null: the consumer must not have existed; this request
                 # created it itself (observed absent when its creating
@@ -182,9 +215,17 @@ def families(tier):
                     [put(1, 1, 'null'), put(2, 1, 'null')]),
         make_family('existing/put+put', True,
                     [put(1, 1, 'int'), put(2, 2, 'int')]),
+        make_family('existing/put_empty+put', True,
+                    [put_empty(1, 'int'), put(2, 2, 'int')]),
     ]
     if tier == 'thorough':
         fams += [
+            make_family('existing/post_empty+put', True,
+                        [post_empty(1, 'int'), put(2, 2, 'int')]),
+            make_family('existing/put_empty+put_empty', True,
+                        [put_empty(1, 'int'), put_empty(2, 'int')]),
+            make_family('existing/delete+put', True,
+                        [delete(1), put(2, 2, 'int')]),
             make_family('new/put-null+put-int', False,
                         [put(1, 1, 'null'), put(2, 1, 'int')]),
             make_family('new/put-null+post-null', False,
